@@ -16,6 +16,7 @@ Not decided: value-level precedence for each of the several hundred leaves; equi
 from __future__ import annotations
 
 import ast
+import re
 
 from flow import BaseClient, function_exits
 
@@ -621,6 +622,17 @@ def g15(repo, res):
         if isinstance(arg, ast.Name):
             defs = [s_.value for s_ in ast.walk(fn) if isinstance(s_, ast.Assign) and any(isinstance(t, ast.Name) and t.id == arg.id for t in s_.targets)]
             src = next((d for d in defs if isinstance(d, ast.DictComp)), None)
+            if src is None and any(isinstance(d, ast.Dict) and not d.keys for d in defs):
+                # the same collection written as a loop: `D = {}; for k, v in kw.items(): .. if k.startswith("style"): D[k] = v` - the test is a
+                # direct child of the loop body and nothing in the loop skips an entry (no continue / break)
+                for lp in [x for x in ast.walk(fn) if isinstance(x, ast.For) and ast.unparse(x.iter).endswith(".items()")]:
+                    if any(isinstance(x, (ast.Continue, ast.Break)) for x in ast.walk(lp)):
+                        continue
+                    for st in lp.body:
+                        if isinstance(st, ast.If) and not st.orelse and re.fullmatch(r"\w+\.startswith\(['\"]style['\"]\)", ast.unparse(st.test)) and any(
+                                isinstance(a_, ast.Assign) and isinstance(a_.targets[0], ast.Subscript) and isinstance(a_.targets[0].value, ast.Name)
+                                and a_.targets[0].value.id == arg.id for a_ in st.body):
+                            src = st
         elif isinstance(arg, ast.DictComp):
             src = arg
         if src is not None and "style" in ast.unparse(src) and isinstance(sep, ast.Constant) and sep.value == "_":
